@@ -902,6 +902,8 @@ pub async fn handle_connection(
         .await
     {
         debug!("We got a new request on connection.");
+        #[cfg(feature = "verif-hooks")]
+        crate::verif::point("hx.req", i64::from(address.port()));
         trace!("Got request {request:#?}");
         let host = if let Some(host) = descriptor.data.get_from_request(&request, sni.as_deref()) {
             host
@@ -1018,9 +1020,15 @@ pub async fn handle_connection(
             }
         }
 
+        #[cfg(feature = "verif-hooks")]
+        crate::verif::point("hx.resp", i64::from(address.port()));
         if !continue_accepting() {
+            #[cfg(feature = "verif-hooks")]
+            crate::verif::point("hx.cont", 0);
             break;
         }
+        #[cfg(feature = "verif-hooks")]
+        crate::verif::point("hx.cont", 1);
     }
     debug!("Connection finished.");
     http.shutdown().await;
